@@ -253,8 +253,12 @@ class Builder:
                     body.append(self.plain())
         if r.random() < 0.2 and self.allow_cpa:
             body.append(self.cpa())
-        return Item(kind, kind, ["${" + nm + "}"], uid, body=body, endcmd="end" + kind, is_impl=True,
-                    name="${" + nm + "}", params=[])
+        im = Item(kind, kind, ["${" + nm + "}"], uid, body=body, endcmd="end" + kind, is_impl=True,
+                  name="${" + nm + "}", params=[])
+        if self.p_doc_impl and r.random() < self.p_doc_impl:
+            im.doc = [f"{{L{uid}.0}} doccomment on the implementing definition"]
+            self.unasserted_impl_names.add(im.gt["name"])
+        return im
 
     def cpa(self):
         uid = self.new_uid()
@@ -307,6 +311,9 @@ class Builder:
                 a = b = f"pN{iuid}Z{j}"
             pw.append(a)
             pe.append(b)
+        if pw and r.random() < 0.1:
+            j_ = r.randrange(len(pw))
+            pw[j_] = pe[j_] = "args"            # a parameter that happens to be called like the variadic type
         ikind = r.choice(["function", "function", "macro"])
         body = []
         if depth < self.max_depth and r.random() < 0.4:
